@@ -45,6 +45,12 @@ fn read_fault(tgt: &str, data: &[u8], k: usize, kind: ErrorKind, sizes: Vec<usiz
         "map" => match serde_json::from_reader::<_, std::collections::BTreeMap<String, Vec<i64>>>(rd) { Ok(_) => "T".into(), Err(e) => show_io(&e) },
         "opt" => match serde_json::from_reader::<_, Option<(String, bool)>>(rd) { Ok(_) => "T".into(), Err(e) => show_io(&e) },
         "unit3" => match serde_json::from_reader::<_, [(); 3]>(rd) { Ok(_) => "T".into(), Err(e) => show_io(&e) },
+        #[cfg(feature = "rv")]
+        "raw" => match serde_json::from_reader::<_, Box<serde_json::value::RawValue>>(rd) { Ok(v) => format!("R{}", hexf(v.get().as_bytes())), Err(e) => show_io(&e) },
+        #[cfg(feature = "rv")]
+        "rawvec" => match serde_json::from_reader::<_, Vec<Box<serde_json::value::RawValue>>>(rd) { Ok(_) => "T".into(), Err(e) => show_io(&e) },
+        #[cfg(feature = "rv")]
+        "rawmap" => match serde_json::from_reader::<_, std::collections::BTreeMap<String, Box<serde_json::value::RawValue>>>(rd) { Ok(_) => "T".into(), Err(e) => show_io(&e) },
         _ => "?".into(),
     })).unwrap_or("PANIC".into());
     (o, delivered.get())
@@ -55,7 +61,9 @@ pub fn emit_read(sink: &mut Sink, cfg: &str, doc: &[u8], r: &mut Rng, tag: &str,
         let (kn, kind) = *r.pick(KINDS);
         let sizes = chunk_sizes(r); let sizes = if sizes.is_empty() { vec![4096] } else { sizes };
         let intr = r.next() % 729;
-        let tgts: &[&str] = if typed { &["pair", "vec", "map", "opt", "unit3"] } else { &["value", "ignored"] };
+        // raw-value buffering (raw_value builds): the fault can arrive while IoRead holds a raw buffer
+        let tgts: &[&str] = if typed { if cfg!(feature = "rv") { &["pair", "vec", "map", "opt", "unit3", "rawvec", "rawmap"] } else { &["pair", "vec", "map", "opt", "unit3"] } }
+                            else if cfg!(feature = "rv") { &["value", "ignored", "raw"] } else { &["value", "ignored"] };
         for tgt in tgts {
             let (o, d) = read_fault(tgt, doc, k, kind, sizes.clone(), intr, false);
             // the same prefix followed by a clean end of input (UnexpectedEof is never injected here, so kinds differ)
